@@ -1562,7 +1562,9 @@ func (w *envelopingWriter) maybeInit() {
 	}
 	// synthesize envelope
 	if limit := int(w.rw.op.methodConf.maxMsgBufferBytes); w.rw.contentLen > limit {
-		w.err = bufferLimitError(int64(limit))
+		err := bufferLimitError(int64(limit))
+		w.rw.reportError(err)
+		w.err = err
 		return
 	}
 	var env envelope
